@@ -192,7 +192,7 @@ def source_bytes(src):
     if src["kind"] == "sample":
         return open(os.path.join(SAMPLES, src["name"]), "rb").read()
     if src["kind"] == "decorated":
-        return decorated_package(src["base"])
+        return decorated_package(src["base"], src.get("inner", False))
     if src["kind"] == "variant":
         return variant_package(src["base"], src["seed"])
     return None
@@ -406,7 +406,7 @@ def open_source(src):
     if k == "generated":
         return generate_document(src["spec"])
     if k == "decorated":
-        return Document(io.BytesIO(decorated_package(src["base"])))
+        return Document(io.BytesIO(decorated_package(src["base"], src.get("inner", False))))
     if k == "variant":
         return Document(io.BytesIO(variant_package(src["base"], src["seed"])))
     raise KeyError(k)
@@ -500,9 +500,10 @@ def variant_package(base, seed):
     return out.getvalue()
 
 
-def decorated_package(base):
+def decorated_package(base, inner=False):
     """A legal but unusual package: the sample/template `base` with comments and processing
-    instructions before and after the root element of content.xml and styles.xml."""
+    instructions before and after the root element of content.xml and styles.xml; with inner=True
+    also inside the tree (first child of the body, inside the first paragraph between text)."""
     if base in TEMPLATES:
         from odfdo import Document
 
@@ -520,6 +521,17 @@ def decorated_package(base):
                 root.addprevious(etree.Comment(" exported by vf decorator "))
                 root.addprevious(etree.ProcessingInstruction("vf-revision", "42"))
                 root.addnext(etree.Comment(" end of part "))
+                if inner:
+                    body = root.find("{%s}body" % OFFICE_NS)
+                    host = body[0] if body is not None and len(body) else root
+                    host.insert(0, etree.Comment(" a comment inside the tree "))
+                    host.insert(1, etree.ProcessingInstruction("vf-inner", "1"))
+                    for p_ in root.iter("{urn:oasis:names:tc:opendocument:xmlns:text:1.0}p"):
+                        c_ = etree.Comment("in a paragraph")
+                        c_.tail = p_.text
+                        p_.text = None
+                        p_.insert(0, c_)
+                        break
                 data = etree.tostring(root.getroottree(), xml_declaration=True, encoding="UTF-8")
             zout.writestr(info, data, compress_type=zipfile.ZIP_STORED if info.filename == "mimetype" else zipfile.ZIP_DEFLATED)
     return out.getvalue()
@@ -530,7 +542,7 @@ def gen_source(rng, allow_generated=True):
     if k < 0.25:
         return {"kind": "template", "name": rng.choice(TEMPLATES)}
     if k < 0.33:
-        return {"kind": "decorated", "base": rng.choice(TEMPLATES + ["example.odt", "simple_table.ods", "note.odt"])}
+        return {"kind": "decorated", "base": rng.choice(TEMPLATES + ["example.odt", "simple_table.ods", "note.odt"]), "inner": rng.random() < 0.5}
     if k < 0.41:
         return {"kind": "variant", "base": rng.choice(TEMPLATES + ["example.odt", "simple_table.ods", "note.odt", "background.odp", "base_shapes.odg"]), "seed": rng.randrange(1000)}
     if k < 0.7 or not allow_generated:
